@@ -29,7 +29,41 @@ ASSUMPTIONS = ["database loads are triggered only through InterrogateDatabase::c
 def _cycle_pos(fn, e, vec):
     """('front', k) for vec[k] / vec.front() / vec.at(k); ('back', k) for vec.back() / vec[vec.size()-1-k]."""
     e = strip_casts(e)
-    if e is None or vec is None or e.get("k") != "call":
+    if e is None or vec is None:
+        return None
+    on_vec = lambda n: n is not None and (local_ref(n) or {}).get("d") == vec.get("d")
+    # *it  with  it = vec.begin() [+ k] / std::next(vec.begin(), k) / vec.end() - k / std::prev(vec.end(), k) / vec.rbegin() [+ k]
+    star = None
+    if e.get("k") == "un" and e.get("op") == "*":
+        star = strip_casts(peel(e.get("e")))
+    elif e.get("k") == "call" and callee_short(e) == "operator*" and len(e.get("a", [])) == 1:
+        star = strip_casts(peel(e["a"][0]))
+    if star is not None:
+        off = 0
+        while star is not None and star.get("k") == "call":
+            nm = callee_short(star)
+            a = star.get("a", [])
+            if nm in ("operator+", "operator-") and len(a) == 2 and const_int(a[1]) is not None:
+                off += const_int(a[1]) if nm == "operator+" else -const_int(a[1])
+                star = strip_casts(peel(a[0]))
+            elif nm in ("next", "prev") and a:
+                k = const_int(a[1]) if len(a) > 1 and a[1].get("k") != "defarg" else 1
+                if k is None:
+                    return None
+                off += k if nm == "next" else -k
+                star = strip_casts(peel(a[0]))
+            else:
+                break
+        if star is not None and star.get("k") == "call" and "this" in star and on_vec(star["this"]):
+            nm = callee_short(star)
+            if nm in ("begin", "cbegin") and off >= 0:
+                return ("front", off)
+            if nm in ("end", "cend") and off <= -1:
+                return ("back", -off - 1)
+            if nm in ("rbegin", "crbegin") and off >= 0:
+                return ("back", off)
+        return None
+    if e.get("k") != "call":
         return None
     name = callee_short(e)
     if name in ("front", "back") and "this" in e and (local_ref(e["this"]) or {}).get("d") == vec.get("d"):
